@@ -327,6 +327,15 @@ func c08Exec(cs *c08Hist, counters map[string]int64) (*wk.Failure, int) {
 				c08LastOuts[i] = fmt.Sprintf("%v|%x", rerr != nil, wk.FNV(string(w.Accepted)))
 			}
 			switch {
+			case esc != nil && !fired && w.Failed == 0 && !m.esc:
+				// nothing was injected, the same render on a fresh bundle does not panic: the panic is a
+				// product of the history
+				return mk("output", "render panics depending on history",
+					fmt.Sprintf("%s: a panic escaped (%s) although the same render on a freshly compiled bundle returns normally, after %d earlier operations", what, trunc(esc.Value, 200), i)), done
+			case w.Failed > 0 && !fired && esc == nil && rerr == nil:
+				// C12's statement holds for the n-th render of a bundle as for the first
+				return mk("output", "failed write not reported by a later render of the bundle",
+					fmt.Sprintf("%s: the writer failed at call %d but the render returned nil, after %d earlier operations on the same bundle", what, w.FirstFailCall, i)), done
 			case !faulted && !bytes.Equal(w.Accepted, m.out):
 				return mk("output", "render output depends on history",
 					fmt.Sprintf("%s: output differs from the same render on a freshly compiled bundle after %d earlier operations:\n got %q\nwant %q", what, i, trunc(string(w.Accepted), 200), trunc(string(m.out), 200))), done
@@ -602,7 +611,10 @@ func C08(c *wk.Ctx) {
 				continue
 			}
 			if budget {
-				u.Counters["histories_cut_by_c06_condition"]++
+				// the generated bundles terminate by construction: an operation of a history that exhausts the
+				// step budget or blocks is reported (and the plain variant would hang on it for real)
+				u.Counters["histories_cut_by_a_hang"]++
+				u.AddFail(f)
 				continue
 			}
 			u.AddFail(f)
